@@ -1492,7 +1492,8 @@ def report_failures(chk, descs, obss, bad):
             (f"independently decorated in the same process: {others}" if others else "") + \
             f"occupied={small.get('occupied')} " + (f"same decorator object applied first to a class with attrs={[(a['name'], a['ty']) for a in small['prior']['attrs']]} " if small.get("prior") else "") + \
             f"cfg={ {k: v for k, v in small['cfg'].items() if v not in (None, True)} } " + \
-            f"helper names only observed={hn['only_observed']} only documented={hn['only_documented']}"
+            (f"helper names only observed={hn['only_observed']} only documented={hn['only_documented']}"
+             if (hn["only_observed"] or hn["only_documented"]) else "")
         chk.violation(what, {"desc": small, "code": code, "rejected_by": why,
                              "class_sources": sources(small), "helper_names": hn,
                              "observed": {k: o[k] for k in ("outcome", "attrs", "annots")},
